@@ -160,3 +160,5 @@ func SignCompact(payload []byte, signer Signer) (string, error) {
 	}
 	return input + "." + base64.RawURLEncoding.EncodeToString(sig), nil
 }
+
+func pubkeyJWK(pub interface{}) (*jws.JWK, error) { return pubkey.GetPublicKeyJWK(pub) }
